@@ -14,3 +14,10 @@ with kani_engine.Snapshot() as snap:
             cmd += ["--features", ",".join(u["features"])]
         log("warming", u["pkg"])
         subprocess.run(cmd, cwd=snap.repo, env=kani_engine.ENV, stdout=subprocess.DEVNULL, stderr=subprocess.DEVNULL, timeout=3600)
+
+# Engine N: compile the workspace's test profile natively once (release), so that the first native unit only builds its own test
+import native_engine
+with native_engine.NativeCopy() as copy:
+    log("warming native release build")
+    subprocess.run(["cargo", "test", "--release", "--offline", "--workspace", "--no-run"], cwd=copy.root,
+                   env=dict(native_engine.ENV, CARGO_TARGET_DIR=native_engine.TARGET_DIR), stdout=subprocess.DEVNULL, stderr=subprocess.DEVNULL, timeout=3600)
